@@ -14,6 +14,8 @@ desc = {d["ID"]: d for d in json.loads(subprocess.check_output([BIN, "describe"]
 # id -> the deciding method, in a few words
 technique = {
  "C01": "loop-progress (stuck-cycle) analysis over SSA cycles, must-advance path rule for inline parsers, countdown-underflow contradiction rule, reachable-panic inventory, registry/type-assertion agreement",
+ "C02": "constant evaluation and sibling cross-check of the numeric-character-reference decoders (base and length guard of every strconv.Parse call on a scanned digit run) + evaluation of the backslash-escapable byte set for all 256 values",
+ "C16": "template extraction from the sink model's attribute contexts (id/href piece sequences compared across render functions) + dominance rules for the numbering discipline + stale-cursor (iterate-and-remove) rule",
  "C03": "taint-to-sink dataflow over SSA with an HTML lexer-state dataflow over the constant writes (attribute contexts), dominance by the Unsafe flag, constant-vocabulary extraction, escape-table evaluation",
  "C04": "dominance/guard analysis of every href/src sink found by the lexer-state dataflow + same-value (SSA identity) rule between tested and written URL + constant evaluation of the predicate tables",
  "C05": "path enumeration over the SSA CFG of every tree mutator with paired-effect (count vs attach/detach) accounting, link-symmetry rule, who-may-call rule for raw link setters",
@@ -26,10 +28,10 @@ technique = {
  "C12": "ownership (freshness) dataflow over SSA for every []byte write site + copy-on-write typestate + unsafe inventory",
  "C13": "path enumeration over tree mutators (count/link pairing, symmetry, detach-before-attach) + finite-state exploration of the Walk helper's CFG x abstract status/error domain",
  "C14": "return-value provenance (Render returns Flush() or the walk error; Convert returns it) + single-output-channel rule over all sinks + no control flow on write results",
- "C15": "postcondition rule on the id generator (returned id inserted under a miss-edge of a lookup of the same key, non-empty) + per-document table + every heading parser's Close serves an id",
+ "C15": "postcondition rule on the id generator (returned id inserted under a miss-edge of a lookup of the same key, non-empty) + per-document table + must-serve dataflow in every heading parser's Close",
  "C17": "dominance rule on the table transformer (header width == alignments) + per-iteration path enumeration of the row builder (one cell per column index, bounded by len(alignments))",
  "C18": "cache-coherence path rule on every reader method (each store to the cursor resets the derived caches) + restore-on-exit rule for the search helpers + sibling cross-check",
- "C19": "guard/dominance rule for percent triples, freshness (no aliasing) rule for derived byte filters, constant evaluation of the lookup tables, no-argument-write rule for exported util functions",
+ "C19": "per-cycle byte-set evaluation of URLEscape (every verbatim byte admitted by the path facts, evaluated for all 256 values), freshness (no aliasing) rule for derived byte filters, constant evaluation of the lookup tables, no-argument-write rule for exported util functions",
  "C20": "dominance rules over the initialisers (sort dominates build, free parsers after all block parsers), comparator normal form, registration-loop direction, bounds-guarded dispatch",
 }
 
